@@ -50,6 +50,15 @@ fn replay(p: &std::path::Path) {
     let (v0, v1) = (engine_verdict(&e0, &req), engine_verdict(&e1, &req));
     let rules: Vec<NetworkFilter> = all.iter().filter_map(|l| parse_net(l)).collect();
     let want = spec_verdict(&rules, &tags.iter().cloned().collect(), &req);
+    if rp["matched_rule"].as_bool().is_some() {
+        let (mr, fc) = (rp["matched_rule"].as_bool().unwrap_or(false), rp["force_check_exceptions"].as_bool().unwrap_or(false));
+        let (g, w) = (engine_verdict_p(&e1, &req, mr, fc), spec_verdict_p(&rules, &tags.iter().cloned().collect(), &req, mr, fc));
+        println!("subset query ({}, {}): engine {:?}, rule-by-rule {:?}", mr, fc, g, w);
+        if g != w {
+            println!("VIOLATION property=C04 replay={}", p.display());
+            std::process::exit(1);
+        }
+    }
     println!("engine(L)={:?}\nengine(L++added)={:?}\nrule-by-rule(L++added)={:?}\nkind={}", v0, v1, want, rp["kind"]);
     if rp["live"].as_bool().unwrap_or(false) {
         let base_rules: Vec<NetworkFilter> = base.iter().filter_map(|l| parse_net(l)).collect();
@@ -180,6 +189,16 @@ fn main() {
             if got != want {
                 sm.failure(None, &format!("precedence: engine {:?}, rule-by-rule {:?}", got, want),
                     json!({"kind": "precedence", "rules": lines, "added": [], "tags": tags, "url": url, "source": src, "type": ty}));
+            }
+            // the same precedence through the subset entry point (an earlier engine matched / exceptions
+            // forced), all three non-trivial flag combinations
+            for (mr, fc) in [(true, false), (false, true), (true, true)] {
+                let (g, w) = (engine_verdict_p(&e, &req, mr, fc), spec_verdict_p(&rules, &tagset, &req, mr, fc));
+                sm.oracle_evaluations += 1;
+                if g != w {
+                    sm.failure(None, &format!("precedence through check_network_request_subset(matched_rule={}, force_check_exceptions={}): engine {:?}, rule-by-rule {:?}", mr, fc, g, w),
+                        json!({"kind": "precedence", "rules": lines, "added": [], "tags": tags, "url": url, "source": src, "type": ty, "matched_rule": mr, "force_check_exceptions": fc}));
+                }
             }
             // a badfilter rule never matches anything
             for f in rules.iter().filter(|f| f.is_badfilter()) {
